@@ -24,8 +24,8 @@ func init() {
 			"C02.alpha: every literal the formatter can emit for a position, in both letter cases, is a member of that position's capture-group language of roman.pattern (so Valid and the parser accept every formatted numeral). " +
 			"C02.lower: toLower evaluated on a one-element slice for each class of a partition of all byte values (the seven letters as themselves, the gaps as an opaque byte known to lie in the gap; that elements are treated alike is the shape of its range loop): each letter becomes its own ASCII lower case, every other byte is unchanged; it is applied only when FormatLowerCase is set, to the appended bytes. C02.value: the parser's value function, extracted as a decision table, maps every literal the formatter can emit (both letter cases) back to its digit. " +
 			"C02.flags: the eight base Format flags are distinct single bits and FormatLong4x/FormatLong9x/FormatLong are exactly the documented unions. C02.zero: n = 0 ↦ buffer unchanged; empty input ↦ (0, nil) unless RuleDisableEmptyAsZero. S-DELEG with verb table L, l, R, r, default. " +
-			"C02.valid: Valid and DefaultParser share the guard and match the same pattern on the whole input, for every input type (C10.same under this property). C02.buffer: the formatted numeral is appended to the caller's buffer and shares no storage with anything a later call can write (C16's append-only and buffer-independence rules on roman.DefaultFormatter).",
-		NotDecided:  []string{"the composition over whole numbers: that thousands·1000 + hundreds·100 + tens·10 + units of the parser is summed without overflow for every n the formatter can print (C10's side condition on len(capture 1) × 1000)", "which n fit within MaxInputLength (128 bytes)"},
+			"C02.valid: Valid and DefaultParser share the guard and match the same pattern on the whole input, for every input type (C10.same under this property). C02.buffer: the formatted numeral is appended to the caller's buffer and shares no storage with anything a later call can write (C16's append-only and buffer-independence rules on roman.DefaultFormatter). C02.sum: as C10.groups.",
+		NotDecided:  []string{"the composition over whole numbers beyond its shape (C02.sum: the parser returns len(capture 1)×1000 + the three group values, every sum and product 64 bits wide on the analysed target)", "which n fit within MaxInputLength (128 bytes)"},
 		Assumptions: []string{"bits.Div64(0, x, c) returns quotient and remainder of x / c"},
 		Technique:   "constant-table reading + decision-table extraction + DFA membership + dataflow over go/ssa",
 	})
@@ -62,6 +62,9 @@ func runC02(e *Env) {
 		})
 	}
 	e.S.Floor("C02.buffer", 2)
+	// the parser's value is the sum of the group values, computed in 64 bits (C10.groups under this property)
+	ruleRomanSum(e, "C02.sum")
+	e.S.Floor("C02.sum", 2)
 }
 
 type romanPos struct {
